@@ -86,12 +86,14 @@ def _same(d, a, b):
 
 
 # ---------------------------------------------------------------- C10: update accepts the result; chunking invariance
-def sc_chunking(d, n, comp, w=None):
-    """the stream x_0..x_{n-1} processed one by one and in the chunks of `comp`: same decisions, same utilities"""
+def sc_chunking(d, n, comp, w=None, uw=False):
+    """the stream x_0..x_{n-1} processed one by one and in the chunks of `comp`: same decisions, same utilities
+    (uw: a per-instance utility_weight, e.g. a density estimate, is handed to query)"""
     B = 0.5
     seed = d.integer("seed", 0, 2 ** 31 - 2)
     clf = _freq_classifier(d)
     xs = [d.fl(f"x{i}", lo=-4.0, hi=4.0) for i in range(n)]
+    uws = [d.fl(f"uw{i}", lo=0.25, hi=4.0) for i in range(n)] if uw else None
 
     def run(sizes):
         qs = _make(d, B, seed, w)
@@ -99,7 +101,8 @@ def sc_chunking(d, n, comp, w=None):
         granted, utils = [], []
         for m in sizes:
             ch = d.arr([[xs[pos + i]] for i in range(m)], shape=(m, 1))
-            idx, ut = qs.query(ch.copy(), clf, return_utilities=True)
+            kw = dict(utility_weight=d.arr([uws[pos + i] for i in range(m)])) if uw else {}
+            idx, ut = qs.query(ch.copy(), clf, return_utilities=True, **kw)
             idl = [int(i) for i in idx]
             d.prove(all(0 <= i < m for i in idl) and all(a < b for a, b in zip(idl, idl[1:])),
                     "indices_strictly_increasing_in_range", info=dict(got=idl, chunk=m))
@@ -180,7 +183,8 @@ def _compositions(n):
 def harnesses_c10():
     return [dual_harness("probabilistic_al_chunking", sc_chunking,
                          lambda tier: [dict(n=n, comp=c, w=w) for w in (None, 2) for n in ((2, 3) if tier == "quick" else (2, 3, 4))
-                                       for c in _compositions(n)],
+                                       for c in _compositions(n)]
+                         + [dict(n=n, comp=c, uw=True) for n in ((2,) if tier == "quick" else (2, 3)) for c in _compositions(n)],
                          UNITS, required_witnesses=("some_granted",), product_abstraction=True)]
 
 
